@@ -73,11 +73,19 @@ impl Await {
                     // NOTE: We need to get the object before resuming, since it could clear the stack.
                     let async_generator = r#gen.async_generator_object()?;
 
-                    r#gen.resume(
+                    let completion = r#gen.resume(
                         Some(args.get_or_undefined(0).clone()),
                         GeneratorResumeKind::Normal,
                         context,
                     );
+
+                    // An error that script code cannot catch (a runtime limit) is not a rejection
+                    // of the function's promise: it has to reach the host through the job.
+                    if let CompletionRecord::Throw(err) = &completion
+                        && !err.is_catchable()
+                    {
+                        return Err(err.clone());
+                    }
 
                     if let Some(async_generator) = async_generator {
                         async_generator
@@ -114,11 +122,19 @@ impl Await {
                     // NOTE: We need to get the object before resuming, since it could clear the stack.
                     let async_generator = r#gen.async_generator_object()?;
 
-                    r#gen.resume(
+                    let completion = r#gen.resume(
                         Some(args.get_or_undefined(0).clone()),
                         GeneratorResumeKind::Throw,
                         context,
                     );
+
+                    // An error that script code cannot catch (a runtime limit) is not a rejection
+                    // of the function's promise: it has to reach the host through the job.
+                    if let CompletionRecord::Throw(err) = &completion
+                        && !err.is_catchable()
+                    {
+                        return Err(err.clone());
+                    }
 
                     if let Some(async_generator) = async_generator {
                         async_generator
